@@ -47,7 +47,7 @@ REQUIRED = {'quick': {f'accepted.{n}': 40 for n in ['empty', 'rooms', 'dynamic_o
                                                      'memory', 'memory_rooms']}}
 REQUIRED['quick'].update({f'rejected.{n}': 10 for n in ['empty', 'rooms', 'dynamic_obstacles', 'keydoor', 'crossing', 'teleport',
                                                         'memory', 'memory_rooms']})
-REQUIRED['quick'].update({'outcomes.enumerated': 2000, 'outcomes.exhaustive_cases': 8})
+REQUIRED['quick'].update({'outcomes.enumerated': 2000, 'outcomes.exhaustive_cases': 8, 'long_layouts': 1000})
 
 
 def cells(state):
@@ -382,6 +382,22 @@ def run(ctx):
                 if idx % 4999 == 0:
                     ctx.sample('grid_case', {'fn': name, 'params': jsonable(p), 'verdict': first})
             ctx.hit('passes')
+        # many rooms along one dimension: sizes up to 70, 1..15 rooms, both orientations, rooms and memory_rooms
+        sizes = range(3, ctx.pick(72, 130))
+        idx = 0
+        for size in sizes:
+            for n in range(1, ctx.pick(16, 20)):
+                for orient in (0, 1):
+                    idx += 1
+                    if not ctx.mine(size * 31 + orient):
+                        continue
+                    shape = (size, 5) if orient == 0 else (5, size)
+                    layout = [n, 1] if orient == 0 else [1, n]
+                    run_seeded(ctx, 'rooms', {'shape': shape, 'layout': layout}, ctx.seed * 13 + idx)
+                    ctx.hit('long_layouts')
+                    if idx % 3 == 0:
+                        run_seeded(ctx, 'memory_rooms', {'shape': shape, 'layout': layout, 'colors': [Color.RED, Color.BLUE, Color.GREEN],
+                                                         'num_beacons': 1, 'num_exits': 2}, ctx.seed * 13 + idx)
         for i, (name, p) in enumerate(SMALLEST):
             if ctx.mine(i):
                 n = run_all_outcomes(ctx, name, dict(p), ctx.pick(3000, 200000))
